@@ -214,7 +214,9 @@ theorem spatialInfo_tiled_frame {ds : ImageDs} {tf : TiledFull} {P : Plane} {z s
              P.oriL, [P.sr, P.sc], sbs) := by
   unfold getSpatialInformation
   rw [h.coord]
-  simp only [h.multiframe, h.tiled, Option.isSome_some, Gen.tiledFullHasNoFrameGroups, Bool.and_self, if_true,
+  have hge : ¬ (tf.frameNumber ch pl tr tc < Gen.firstFrameNumber) := by
+    simp only [TiledFull.frameNumber, Gen.firstFrameNumber]; omega
+  simp only [h.multiframe, h.tiled, Option.isSome_some, Gen.tiledFullHasNoFrameGroups, Bool.and_self, if_true, hge,
     Bool.false_eq_true, if_false, bind, Except.bind, pure, Except.pure, chainOrder_measures,
     lookupIn_shared ds.shared none (·.measures) _ h.measures]
   rw [tiledFramePosition_eval ds tf h.origin h.measures (ne_of_gt h.rows) (ne_of_gt h.cols) ch pl tr tc hch hpl htr htc]
@@ -268,12 +270,26 @@ theorem forImage_inverse_of_frame {ds : ImageDs} {tf : TiledFull} {P : Plane} {z
     Gen.refToPixForImageDefaultSliceSpacing, Option.getD_some]
   norm_num
 
-/-- **frame numbers outside `1 … frames` are refused** -/
+/-- **a frame number below 1 is refused (IndexError) by every multi-frame image**, tiled or not (repaired defect
+C10-frame-number-lower-bound: before the fix a non-tiled image answered with a frame counted from the END) -/
+theorem spatialInfo_nonpositive_refused (ds : ImageDs) (c : Coord) (hc : ds.coord = some c) (hm : ds.multiframe = true) (f : Int)
+    (hf : f < 1) : getSpatialInformation ds (some f) false = .error .index := by
+  unfold getSpatialInformation
+  rw [hc]
+  have : f < Gen.firstFrameNumber := hf
+  simp only [hm, if_true, Bool.false_eq_true, if_false, this]
+
+/-- **frame numbers outside `1 … frames` are refused** (TILED_FULL) -/
 theorem spatialInfo_tiled_out_of_range {ds : ImageDs} {tf : TiledFull} {P : Plane} {z sbs : Option Rat} (h : TiledSlide ds tf P z sbs)
     (f : Int) (hf : f < 1 ∨ (tf.frames : Int) < f) : ∃ e, getSpatialInformation ds (some f) false = .error e := by
+  rcases hf with hf | hf
+  · exact ⟨_, spatialInfo_nonpositive_refused ds _ h.coord h.multiframe f hf⟩
   unfold getSpatialInformation
   rw [h.coord]
-  simp only [h.multiframe, h.tiled, Option.isSome_some, Gen.tiledFullHasNoFrameGroups, Bool.and_self, if_true,
+  have hge : ¬ (f < Gen.firstFrameNumber) := by
+    have : (0 : Int) ≤ (tf.frames : Int) := Int.natCast_nonneg _
+    simp only [Gen.firstFrameNumber]; omega
+  simp only [h.multiframe, h.tiled, Option.isSome_some, Gen.tiledFullHasNoFrameGroups, Bool.and_self, if_true, hge,
     Bool.false_eq_true, if_false, bind, Except.bind, pure, Except.pure, chainOrder_measures,
     lookupIn_shared ds.shared none (·.measures) _ h.measures]
   unfold tiledFramePosition
@@ -282,18 +298,29 @@ theorem spatialInfo_tiled_out_of_range {ds : ImageDs} {tf : TiledFull} {P : Plan
   have hs : genInt (Gen.tiledFrameStart f) = f - 1 := by simp [genInt, Gen.tiledFrameStart]
   have he : genInt (Gen.tiledFrameStop f) = f := by simp [genInt, Gen.tiledFrameStop]
   rw [hs, he]
-  by_cases h0 : f - 1 < 0 ∨ f < 0
-  · rw [if_pos h0]; exact ⟨_, rfl⟩
-  · rw [if_neg h0, if_neg (by omega)]
-    have hlen : (frameNest Gen.iterLoopNest tf.channels (tf.focalPlanes.getD Gen.iterDefaultFocalPlanes) (tileGrid tf)).length
-        = tf.frames := by
-      rw [frameNest_length, tileGrid_length]; rfl
-    have hbig : tf.frames ≤ (f - 1).toNat := by
-      rcases hf with hf | hf
-      · omega
-      · omega
-    rw [List.getElem?_eq_none (by rw [hlen]; exact hbig)]
-    exact ⟨_, rfl⟩
+  have h0 : ¬ (f - 1 < 0 ∨ f < 0) := by
+    have : (0 : Int) ≤ (tf.frames : Int) := Int.natCast_nonneg _
+    omega
+  rw [if_neg h0, if_neg (by omega)]
+  have hlen : (frameNest Gen.iterLoopNest tf.channels (tf.focalPlanes.getD Gen.iterDefaultFocalPlanes) (tileGrid tf)).length
+      = tf.frames := by
+    rw [frameNest_length, tileGrid_length]; rfl
+  have hbig : tf.frames ≤ (f - 1).toNat := by omega
+  rw [List.getElem?_eq_none (by rw [hlen]; exact hbig)]
+  exact ⟨_, rfl⟩
+
+/-- … and EXACTLY those: a TILED_FULL slide image answers a frame number iff it lies in `1 … frames` -/
+theorem spatialInfo_tiled_refused_iff {ds : ImageDs} {tf : TiledFull} {P : Plane} {z sbs : Option Rat} (h : TiledSlide ds tf P z sbs)
+    (f : Int) : (∃ e, getSpatialInformation ds (some f) false = .error e) ↔ (f < 1 ∨ (tf.frames : Int) < f) := by
+  constructor
+  · rintro ⟨e, he⟩
+    by_contra hin
+    have h1 : 1 ≤ f := by omega
+    have h2 : f ≤ tf.frames := by omega
+    obtain ⟨ch, pl, tr, tc, hch, hpl, htr, htc, rfl⟩ := tf.frameNumber_surjective f h1 h2
+    rw [spatialInfo_tiled_frame h ch pl tr tc hch hpl htr htc] at he
+    cases he
+  · exact spatialInfo_tiled_out_of_range h f
 
 /-! ## multi-frame images with explicit groups, single frames -/
 
@@ -316,7 +343,8 @@ theorem spatialInfo_per_frame_own (ds : ImageDs) (hc : ds.coord = some .patient)
   rw [hc]
   have hidx : pyIndex ds.perFrame (genInt (Gen.frameGroupIndex ((k : Int) + 1))) = .ok g := by
     rw [frameGroupIndex_succ]; exact pyIndex_natCast _ _ _ hk
-  simp only [hm, ht, Option.isSome_none, Bool.false_and, Bool.false_eq_true, if_false, if_true, hidx, Except.map, bind,
+  have hge : ¬ ((k : Int) + 1 < Gen.firstFrameNumber) := by simp only [Gen.firstFrameNumber]; omega
+  simp only [hm, ht, Option.isSome_none, Bool.false_and, Bool.false_eq_true, if_false, if_true, hidx, hge, Except.map, bind,
     Except.bind, pure, Except.pure, chainOrder_measures, chainOrder_posPatient, chainOrder_oriPatient,
     lookupIn_frame ds.shared g (·.measures) _ hs1 h1, lookupIn_frame ds.shared g (·.posPatient) _ hs2 h2,
     lookupIn_frame ds.shared g (·.oriPatient) _ hs3 h3]
@@ -331,10 +359,56 @@ theorem spatialInfo_shared_wins (ds : ImageDs) (hc : ds.coord = some .patient) (
   obtain ⟨g, hg⟩ : ∃ g, ds.perFrame[k]? = some g := ⟨ds.perFrame[k], List.getElem?_eq_getElem hk⟩
   have hidx : pyIndex ds.perFrame (genInt (Gen.frameGroupIndex ((k : Int) + 1))) = .ok g := by
     rw [frameGroupIndex_succ]; exact pyIndex_natCast _ _ _ hg
-  simp only [hm, ht, Option.isSome_none, Bool.false_and, Bool.false_eq_true, if_false, if_true, hidx, Except.map, bind,
+  have hge : ¬ ((k : Int) + 1 < Gen.firstFrameNumber) := by simp only [Gen.firstFrameNumber]; omega
+  simp only [hm, ht, Option.isSome_none, Bool.false_and, Bool.false_eq_true, if_false, if_true, hidx, hge, Except.map, bind,
     Except.bind, pure, Except.pure, chainOrder_measures, chainOrder_posPatient, chainOrder_oriPatient,
     lookupIn_shared ds.shared (some g) (·.measures) _ h1, lookupIn_shared ds.shared (some g) (·.posPatient) _ h2,
     lookupIn_shared ds.shared (some g) (·.oriPatient) _ h3]
+
+theorem pyIndex_beyond {α : Type} (l : List α) (i : Int) (h : (l.length : Int) ≤ i) : pyIndex l i = (.error .index : Except ErrKind α) := by
+  unfold pyIndex
+  have h0 : ¬ (i < 0) := by have : (0 : Int) ≤ (l.length : Int) := Int.natCast_nonneg _; omega
+  simp only [h0, if_false]
+  rw [List.getElem?_eq_none (by omega)]
+
+/-- **a multi-frame image with per-frame groups refuses exactly the frame numbers outside `1 … n`** (both with IndexError), n = number of
+per-frame items: below 1 by the explicit test, above n by the index into the per-frame sequence -/
+theorem spatialInfo_per_frame_outside_refused (ds : ImageDs) (c : Coord) (hc : ds.coord = some c) (hm : ds.multiframe = true)
+    (ht : ds.tiledFull = none) (f : Int) (hf : f < 1 ∨ (ds.perFrame.length : Int) < f) :
+    getSpatialInformation ds (some f) false = .error .index := by
+  rcases hf with hf | hf
+  · exact spatialInfo_nonpositive_refused ds c hc hm f hf
+  unfold getSpatialInformation
+  rw [hc]
+  have hge : ¬ (f < Gen.firstFrameNumber) := by
+    have : (0 : Int) ≤ (ds.perFrame.length : Int) := Int.natCast_nonneg _
+    simp only [Gen.firstFrameNumber]; omega
+  have hidx : pyIndex ds.perFrame (genInt (Gen.frameGroupIndex f)) = .error .index := by
+    apply pyIndex_beyond
+    simp only [genInt, Gen.frameGroupIndex]; omega
+  simp only [hm, ht, Option.isSome_none, Bool.false_and, Bool.false_eq_true, if_false, if_true, hge, hidx, Except.map, bind,
+    Except.bind]
+
+/-- … and EXACTLY those, when every per-frame item carries its plane (position, orientation, pixel measures) -/
+theorem spatialInfo_per_frame_refused_iff (ds : ImageDs) (hc : ds.coord = some .patient) (hm : ds.multiframe = true)
+    (ht : ds.tiledFull = none) (hs1 : ds.shared.measures = none) (hs2 : ds.shared.posPatient = none)
+    (hs3 : ds.shared.oriPatient = none)
+    (hall : ∀ g ∈ ds.perFrame, g.measures.isSome = true ∧ g.posPatient.isSome = true ∧ g.oriPatient.isSome = true) (f : Int) :
+    (∃ e, getSpatialInformation ds (some f) false = .error e) ↔ (f < 1 ∨ (ds.perFrame.length : Int) < f) := by
+  constructor
+  · rintro ⟨e, he⟩
+    by_contra hin
+    obtain ⟨k, rfl⟩ : ∃ k : Nat, f = (k : Int) + 1 := ⟨(f - 1).toNat, by omega⟩
+    have hk : k < ds.perFrame.length := by omega
+    have hg : ds.perFrame[k]? = some ds.perFrame[k] := List.getElem?_eq_getElem hk
+    obtain ⟨h1, h2, h3⟩ := hall ds.perFrame[k] (List.getElem_mem hk)
+    obtain ⟨⟨ps, sbs⟩, h1⟩ := Option.isSome_iff_exists.mp h1
+    obtain ⟨pos, h2⟩ := Option.isSome_iff_exists.mp h2
+    obtain ⟨ori, h3⟩ := Option.isSome_iff_exists.mp h3
+    rw [spatialInfo_per_frame_own ds hc hm ht hs1 hs2 hs3 k _ hg pos ori ps sbs h1 h2 h3] at he
+    cases he
+  · intro hf
+    exact ⟨_, spatialInfo_per_frame_outside_refused ds _ hc hm ht f hf⟩
 
 /-- single-frame image: its own attributes for frame number None or 1, a TypeError for any other frame number; a multi-frame image
 needs a frame number; an image without coordinate system is refused; a total pixel matrix needs its origin -/
@@ -405,29 +479,37 @@ theorem forImage_mutually_inverse (ds : ImageDs) (f : Option Int) (t : Bool) (P 
 /-! ## PATIENT vs SLIDE -/
 
 theorem imageCoordinateSystem_slide_iff (d : CoordInput) :
-    imageCoordinateSystem d = some .slide ↔
+    imageCoordinateSystem d = .ok (some .slide) ↔
       d.present.contains "FrameOfReferenceUID" = true ∧
       (d.present.contains "ImageOrientationSlide" = true ∨ d.present.contains "ImageCenterPointCoordinatesSequence" = true) := by
   unfold imageCoordinateSystem
-  simp only [Gen.slideMarkers, Gen.patientGroupSequences, List.any_cons, List.any_nil, Bool.or_false]
+  simp only [Gen.slideMarkers, Gen.patientGroupSequences, List.any_cons, List.any_nil, Bool.or_false, patientFromGroups]
   cases h1 : d.present.contains "FrameOfReferenceUID" <;> cases h2 : d.present.contains "ImageOrientationSlide" <;>
     cases h3 : d.present.contains "ImageCenterPointCoordinatesSequence" <;> simp <;>
-    (split <;> simp)
+    (repeat' split) <;> simp
 
-theorem imageCoordinateSystem_patient_iff (d : CoordInput) :
-    imageCoordinateSystem d = some .patient ↔
+theorem imageCoordinateSystem_patient_iff (d : CoordInput) (he : d.emptyAtFirstItem = []) :
+    imageCoordinateSystem d = .ok (some .patient) ↔
       d.present.contains "FrameOfReferenceUID" = true ∧
       d.present.contains "ImageOrientationSlide" = false ∧ d.present.contains "ImageCenterPointCoordinatesSequence" = false ∧
       (d.present.contains "ImagePositionPatient" = true ∨
         (d.present.contains "SharedFunctionalGroupsSequence" = true ∧ d.firstItemHasPatientPosition.contains "SharedFunctionalGroupsSequence" = true) ∨
         (d.present.contains "PerFrameFunctionalGroupsSequence" = true ∧ d.firstItemHasPatientPosition.contains "PerFrameFunctionalGroupsSequence" = true)) := by
   unfold imageCoordinateSystem
-  simp only [Gen.slideMarkers, Gen.patientGroupSequences, List.any_cons, List.any_nil, Bool.or_false]
+  simp only [Gen.slideMarkers, Gen.patientGroupSequences, List.any_cons, List.any_nil, Bool.or_false, patientFromGroups, he,
+    List.contains_nil, Bool.false_eq_true, if_false]
   cases h1 : d.present.contains "FrameOfReferenceUID" <;> cases h2 : d.present.contains "ImageOrientationSlide" <;>
     cases h3 : d.present.contains "ImageCenterPointCoordinatesSequence" <;> cases h4 : d.present.contains "ImagePositionPatient" <;>
     cases h5 : d.present.contains "SharedFunctionalGroupsSequence" <;>
     cases h6 : d.firstItemHasPatientPosition.contains "SharedFunctionalGroupsSequence" <;>
     cases h7 : d.present.contains "PerFrameFunctionalGroupsSequence" <;>
     cases h8 : d.firstItemHasPatientPosition.contains "PerFrameFunctionalGroupsSequence" <;> simp
+
+/-- the answer is never an error unless a functional-group sequence that has to be searched cannot be indexed -/
+theorem imageCoordinateSystem_total (d : CoordInput) (he : d.emptyAtFirstItem = []) : ∃ c, imageCoordinateSystem d = .ok c := by
+  unfold imageCoordinateSystem
+  simp only [Gen.patientGroupSequences, patientFromGroups, he, List.contains_nil, Bool.false_eq_true, if_false]
+  repeat' split
+  all_goals exact ⟨_, rfl⟩
 
 end HdVerif.Affine
